@@ -225,6 +225,7 @@ pub fn history(rng: &mut Rng, c: &Corpus, deep: bool) -> Circuit {
         digest_steps,
         reorder_seed: if rng.chance(2, 3) { rng.next_u64() | 1 } else { 0 },
         tamper_bits: false,
+        tamper_free: false,
     }
 }
 
@@ -390,5 +391,6 @@ pub fn adversarial(rng: &mut Rng, c: &Corpus) -> Circuit {
         digest_steps: vec![],
         reorder_seed: 0,
         tamper_bits: rng.chance(1, 12),
+        tamper_free: rng.chance(1, 12),
     }
 }
